@@ -29,6 +29,7 @@ pub enum PreprocessError {
     EndIfNotMatched,
     UnknownPragma(SourceLocation),
     PragmaOnceInUnknownFile,
+    IncludeNestedTooDeeply(SourceLocation),
 }
 
 impl CompileError for PreprocessError {
@@ -43,6 +44,11 @@ impl CompileError for PreprocessError {
             PreprocessError::UnknownPragma(loc) => {
                 w.write_message(&|f| write!(f, "unknown pragma"), *loc, Severity::Error)
             }
+            PreprocessError::IncludeNestedTooDeeply(loc) => w.write_message(
+                &|f| write!(f, "#include nested too deeply"),
+                *loc,
+                Severity::Error,
+            ),
             PreprocessError::InvalidInclude(loc) => w.write_message(
                 &|f| write!(f, "invalid #include command"),
                 *loc,
@@ -141,6 +147,8 @@ struct FileLoader<'a> {
     /// Files by the name the include handler resolved them to
     real_name_remap: HashMap<String, FileId>,
     pragma_once_files: HashSet<FileId>,
+    /// Number of #include directives we are currently inside
+    include_depth: u32,
     source_manager: &'a mut SourceManager,
     include_handler: &'a mut dyn IncludeHandler,
 }
@@ -160,6 +168,7 @@ impl<'a> FileLoader<'a> {
             file_name_remap: HashMap::new(),
             real_name_remap: HashMap::new(),
             pragma_once_files: HashSet::new(),
+            include_depth: 0,
             source_manager,
             include_handler,
         }
@@ -1171,10 +1180,25 @@ fn preprocess_command(
                 _ => return Err(PreprocessError::InvalidInclude(command_location)),
             };
 
+            // A file that includes itself (directly or indirectly) without a guard would recurse without bound
+            const MAX_INCLUDE_DEPTH: u32 = 200;
+            if file_loader.include_depth >= MAX_INCLUDE_DEPTH {
+                return Err(PreprocessError::IncludeNestedTooDeeply(command_location));
+            }
+
             // Include the file
             match file_loader.load(&file_name, Some(file_id)) {
                 Ok(file) => {
-                    preprocess_included_file(buffer, file_loader, file, macros, condition_chain)?;
+                    file_loader.include_depth += 1;
+                    let result = preprocess_included_file(
+                        buffer,
+                        file_loader,
+                        file,
+                        macros,
+                        condition_chain,
+                    );
+                    file_loader.include_depth -= 1;
+                    result?;
                     Ok(())
                 }
                 Err(err) => Err(PreprocessError::FailedToFindFile(
